@@ -16,33 +16,48 @@ ASSUMPTIONS = ['open findings R4-R6: multiplied units inside multiplied branches
 
 
 def node_mult_only(chain):
-    return all((it.get('mult', 1) == 1 or not it['branches']) and all(node_mult_only(b) for b in it['branches']) for it in chain)
+    return all((it.get('mult', 1) == 1 or not it['branches']) and not it.get('show1') and
+               all(node_mult_only(b) for b in it['branches']) for it in chain)
 
 
 def tags(ast):
-    """syntactic features of a shorthand AST that the open findings are tied to"""
+    """syntactic features of a shorthand AST that the open findings are tied to.  The classes are as
+    narrow as the behaviour of the unchanged tree allows (measured on 70 000 generated strings per
+    class: every shape left outside a class reads correctly today, so a failure there is new)."""
     out = set()
 
-    def walk(chain, depth):
+    def nest_depth(chain):
+        d = 0
         for it in chain:
-            m = it.get('mult', 1) > 1 or it.get('show1')
-            if m and it['branches']:
-                if depth > 0:
-                    out.add('R6c')                     # multiplied anchor+branch unit inside a branch
-                if len(it['branches']) > 1:
+            for b in it['branches']:
+                d = max(d, 1 + nest_depth(b))
+        return d
+
+    def walk(chain, depth, in_mult=False):
+        for i, it in enumerate(chain):
+            shown = it.get('mult', 1) > 1 or it.get('show1')
+            m = it.get('mult', 1)
+            if shown and it['branches']:
+                if m >= 2 and depth > 0 and (depth >= 2 or in_mult or any(x['branches'] for x in chain[:i])):
+                    out.add('R6c')                     # multiplied unit inside a branch that already contains a branch / nested twice / inside a multiplied branch
+                if m >= 2 and len(it['branches']) > 1:
                     out.add('R6a')                     # more than one branch on the multiplied anchor
                 for b in it['branches']:
                     items = list(gen_graph.flat_items(b))
-                    if any(x.get('mult', 1) > 1 and not x['branches'] and x['order'] != 1 for x in items):
+                    if m >= 2 and any(((x.get('mult', 1) > 1 and not x['branches']) or (x.get('nmult', 1) > 1 and x['branches']))
+                                      and x['order'] != 1 for x in items):
                         out.add('R4')                  # multiplied node with incoming order != 1 in a multiplied branch
-                    if any(x['branches'] for x in items):
-                        out.add('R6b')                 # nested branch inside a multiplied branch
+                    nnest = sum(len(x['branches']) for x in items)
+                    if nnest:
+                        closes_together = bool(b and b[-1]['branches'])     # '))|n'
+                        if m >= 3 or closes_together or (m == 2 and (nnest > 1 or nest_depth(b) > 1)):
+                            out.add('R6b')             # nested branch inside a multiplied branch
                     if any(x.get('rings') for x in items):
                         out.add('ring-in-unit')
                 if it.get('rings'):
                     out.add('ring-in-unit')
             for b in it['branches']:
-                walk(b, depth + 1)
+                walk(b, depth + 1, in_mult or (shown and m >= 2))
     walk(ast, 0)
     return out
 
